@@ -506,13 +506,11 @@ func (g *genCfg) setRebind(c *Case) {
 func (g *genCfg) genVarCase(id string) *Case {
 	r := g.rng
 	c := &Case{ID: id, Dir: "var"}
-	c.Access = []string{"globals", "symbols", "use", "evalplain"}[r.Intn(4)]
-	if g.feat["eval-qualified-var"] {
-		c.Access = "evalname"
-	}
-	if g.feat["var-assign-direct"] {
+	// evalname (Eval("main.G") after the script assigned G: F07-7) and direct assignments of a composite literal / call result
+	// (F07-6) were gated features until their repairs (503cf19, 050210f)
+	c.Access = []string{"globals", "symbols", "use", "evalplain", "evalname"}[r.Intn(5)]
+	if c.Access != "evalplain" && c.Access != "evalname" && r.Intn(3) == 0 {
 		c.Direct = true
-		c.Access = []string{"globals", "symbols", "use"}[r.Intn(3)]
 	}
 	host := c.Access == "use"
 	for {
@@ -687,34 +685,6 @@ func isHostIfaceT(t *TypeD) bool  { return t.isHostIface() }
 func isEmptyIfaceT(t *TypeD) bool { return t.isEmptyIface() }
 
 var classes = []classT{
-	{"method-value-variadic", func(c *Case) bool {
-		// F07-3: the method value of a host value (also of a pointer the script made: sptrmv) whose variadic parameter is not the
-		// first one, called through callBin with a CONSTANT argument — an untyped constant, a constant conversion to a basic
-		// type, or, in a call with `...`, a literal nil: the constant is converted to the type of the wrong parameter
-		if c.Dir != "meth" || c.Recv != "mvalue" && c.Recv != "sptrmv" || !c.Sig.Variadic || len(c.Sig.In) < 2 {
-			return false
-		}
-		for k, f := range c.Forms {
-			if (f == "const" || f == "lit") && paramTypeOf(c, k).Kind == KBasic {
-				return true
-			}
-			if (f == "const" || f == "lit" && c.Args[k].Nil && c.Args[k].T.Kind == KIface) && c.Spread {
-				// with `...` a literal nil as well: it is converted to the type picked for its position (the slice type for
-				// the argument before the spread one, the element type for the spread one)
-				return true
-			}
-		}
-		return false
-	}},
-	{"qualified-eval-after-bare-statement", func(c *Case) bool { return c.Dir == "h2s" && c.BareEval && c.Via == "eval-qual" }},
-	{"hostvar-nil-pointer", func(c *Case) bool {
-		return c.Dir == "var" && c.Access == "use" && (c.VT.Kind == KPtr || c.VT.Kind == KIface) && c.V0.Nil
-	}},
-	{"iface-typed-global", func(c *Case) bool {
-		return c.Dir == "var" && c.Access != "use" && c.VT.Kind == KIface
-	}},
-	{"eval-qualified-var", func(c *Case) bool { return c.Dir == "var" && c.Access == "evalname" }},
-	{"var-assign-direct", func(c *Case) bool { return c.Dir == "var" && c.Direct }},
 	{"script-iface", func(c *Case) bool {
 		for _, t := range typesOf(c) {
 			if t.any(func(x *TypeD, _ int) bool { return x.isScriptIface() }) {
